@@ -75,7 +75,9 @@ TrRet ==
   /\ cur' = NoReq
   /\ UNCHANGED cfg /\ Base
 
-TraceNext == TrReset \/ TrConfig \/ TrReq \/ TrTStart \/ TrTEnd \/ TrRet
+\* a call of the swarm's dial function that returned before any transport was asked: no dial, nothing learnt
+TrNoDial == IsEvent("nodial") /\ Ln.err /\ UNCHANGED <<cfg, k, cur, skipped>> /\ Base
+TraceNext == TrNoDial \/ TrReset \/ TrConfig \/ TrReq \/ TrTStart \/ TrTEnd \/ TrRet
 TraceSpec == TraceInit /\ [][TraceNext]_<<vars, ovars>>
 HighWater == TLCSet(1, IF l > TLCGet(1) THEN l ELSE TLCGet(1))
 TraceAccepted == /\ PrintT(<<"VFHW", ToJson([hw |-> TLCGet(1), len |-> Len(TraceLog)])>>)
